@@ -156,6 +156,16 @@ func (p parser) transform(n *yaml.Node) (Node, error) {
 		return nil, fmt.Errorf("unsupported node type: %d", n.Kind)
 	}
 
+	if n.Kind == yaml.MappingNode {
+		// Map keys are addressed by their string value everywhere; a sequence or map used as a key
+		// cannot be represented.
+		for i := 0; i < len(n.Content); i += 2 {
+			if n.Content[i].Kind != yaml.ScalarNode {
+				return nil, fmt.Errorf("unsupported non-scalar map key on line %d", n.Content[i].Line)
+			}
+		}
+	}
+
 	contents := make([]Node, len(n.Content))
 	for i, subNode := range n.Content {
 		subContent, err := p.transform(subNode)
